@@ -153,10 +153,7 @@ def registerFunction : HostValue → Outcome FnBridge
     match checkFunctionOutputs s.results with
     | none => .err .other
     | some r => if inputsSupported s then .ok ⟨s, r, false⟩ else .err .other
-  | .nilFn s =>       -- only the TYPE is inspected: a nil function value passes the gates
-    match checkFunctionOutputs s.results with
-    | none => .err .other
-    | some r => if inputsSupported s then .ok ⟨s, r, true⟩ else .err .other
+  | .nilFn _ => .err .other       -- repaired: `reflect.ValueOf(function).IsNil()` is refused (it used to pass the gates)
 
 /-- `newYarnSpinnerCommand` (registration part) -/
 def registerCommand : HostValue → Outcome CmdBridge
@@ -166,10 +163,7 @@ def registerCommand : HostValue → Outcome CmdBridge
     match checkCommandOutputs s.results with
     | none => .err .other
     | some r => if inputsSupported s then .ok ⟨s, r, false⟩ else .err .other
-  | .nilFn s =>
-    match checkCommandOutputs s.results with
-    | none => .err .other
-    | some r => if inputsSupported s then .ok ⟨s, r, true⟩ else .err .other
+  | .nilFn _ => .err .other
 
 /-! ### argument converters -/
 
